@@ -41,7 +41,7 @@ coordinates, unknown worldlines, every frame x projection incl. invalid pairings
 request budget/rights/plan/instance variants, optic apertures/budgets/provenance coordinates) is issued \
 before and after further mutations. A case is distinct by the digest of its commit history + transcript and \
 non-trivial when it compared >=1 historical reading with replay, re-asked >=1 historical request after later \
-commits, and saw >=1 typed error for unavailable history.";
+commits, saw >=1 typed error for unavailable history, and its history contains >=1 commit whose state root differs from its predecessor's.";
 
 // ---------------------------------------------------------------------------
 // Per-case context
@@ -196,6 +196,7 @@ pub struct CaseStats {
     pub strand_children: u64,
     pub commits: u64,
     pub checkpoints: u64,
+    pub commits_moving_state_root: u64,
 }
 
 pub struct Ctx<'a> {
@@ -212,6 +213,10 @@ pub struct Ctx<'a> {
     content_to_hash: HashMap<u64, Hash>,
     remembered: Vec<Remembered>,
     violations: u64,
+    /// Wall-clock budget of the run: a case stops issuing new requests once it
+    /// expires (what was checked until then stays checked).
+    deadline: Option<Budget>,
+    incomplete: bool,
 }
 
 impl<'a> Ctx<'a> {
@@ -223,6 +228,14 @@ impl<'a> Ctx<'a> {
         if self.quiet {
             return;
         }
+        // A registered finding is reported once per run by the fixed minimal
+        // probe on the main thread (one KNOWN-FINDING line); matrix hits of
+        // exactly that signature are only counted, so 32 shard reports do not
+        // each print the same line. Any other signature is reported in full.
+        if self.rep.is_known(sig) {
+            self.rep.count("known_finding_matrix_hits", 1);
+            return;
+        }
         self.rep.violation(
             sig,
             &what,
@@ -230,15 +243,18 @@ impl<'a> Ctx<'a> {
         );
     }
 
-    fn count(&mut self, key: &str) {
-        if !self.quiet {
-            self.rep.count(key, 1);
+    fn out_of_time(&mut self) -> bool {
+        if self.deadline.is_some_and(|b| b.expired()) {
+            self.incomplete = true;
+            true
+        } else {
+            false
         }
     }
 
-    fn observe_kv(&mut self, key: &str, v: &str) {
+    fn count(&mut self, key: &str) {
         if !self.quiet {
-            self.rep.observe(key, v);
+            self.rep.count(key, 1);
         }
     }
 
@@ -341,9 +357,9 @@ fn projections(rng: &mut Rng) -> Vec<ObservationProjection> {
             "verif-observe:absent",
         ));
     }
-    let vars = rng.bytes(rng.range_usize(0, 9));
+    let vars = { let n = rng.range_usize(0, 9); rng.bytes(n) };
     let mut ok_vars = b"ok".to_vec();
-    ok_vars.extend_from_slice(&rng.bytes(rng.range_usize(0, 4)));
+    ok_vars.extend_from_slice(&{ let n = rng.range_usize(0, 4); rng.bytes(n) });
     vec![
         ObservationProjection::Head,
         ObservationProjection::Snapshot,
@@ -1128,6 +1144,20 @@ impl<'a> Ctx<'a> {
                         );
                     }
                 }
+                // Observation lane (not judged): does a checkpoint-plus-tail witness
+                // basis of a historical read cover the commit the payload describes?
+                if let (Some((t, _)), WitnessBasis::CheckpointPlusTail { tail_witness_refs, .. }) =
+                    (denoted, &rd.read_identity.witness_basis)
+                {
+                    let covers = tail_witness_refs
+                        .last()
+                        .is_some_and(|r| r.worldline_tick.as_u64() == t);
+                    self.count(if covers {
+                        "optic.tick.checkpoint-tail-covers-read-commit"
+                    } else {
+                        "optic.tick.checkpoint-tail-ends-before-read-commit"
+                    });
+                }
                 if remember && denoted.is_some() {
                     self.remembered.push(Remembered::Optic {
                         req: req.clone(),
@@ -1154,6 +1184,9 @@ impl<'a> Ctx<'a> {
     fn recheck(&mut self, sim: &Sim) {
         let items = std::mem::take(&mut self.remembered);
         for item in &items {
+            if self.out_of_time() {
+                break;
+            }
             match item {
                 Remembered::Obs { req, was } => {
                     let desc = || format!("{req:?}");
@@ -1294,8 +1327,25 @@ fn pass(ctx: &mut Ctx<'_>, sim: &Sim, rng: &mut Rng, remember: bool) {
         let n = sim.frontier_len(wl.id);
         let projs = projections(rng);
         for (coord, at) in coords_for(rng, n) {
-            // every valid pairing
-            for p in &projs {
+            if ctx.out_of_time() {
+                return;
+            }
+            // every valid pairing (a sample of them at unavailable coordinates)
+            let unavailable_coord = matches!(
+                coord,
+                Coord::FirstFuture | Coord::FarFuture | Coord::MaxTick
+            );
+            for (pi, p) in projs.iter().enumerate() {
+                // Head is always asked; the other projections are sampled (5 of 8
+                // on average at available coordinates, 3 of 8 at unavailable ones).
+                let keep = if unavailable_coord {
+                    rng.chance(3, 8)
+                } else {
+                    pi == 0 || rng.chance(4, 7)
+                };
+                if !keep {
+                    continue;
+                }
                 let frame = match p {
                     ObservationProjection::Head | ObservationProjection::Snapshot => {
                         ObservationFrame::CommitBoundary
@@ -1303,7 +1353,8 @@ fn pass(ctx: &mut Ctx<'_>, sim: &Sim, rng: &mut Rng, remember: bool) {
                     ObservationProjection::TruthChannels { .. } => ObservationFrame::RecordedTruth,
                     ObservationProjection::Query { .. } => ObservationFrame::QueryView,
                 };
-                let (req, plain) = make_request(rng, wl.id, at, frame, p.clone(), rng.chance(1, 4));
+                let vary = rng.chance(1, 4);
+                let (req, plain) = make_request(rng, wl.id, at, frame, p.clone(), vary);
                 let meta = Meta {
                     coord,
                     wl: wl.id,
@@ -1314,8 +1365,8 @@ fn pass(ctx: &mut Ctx<'_>, sim: &Sim, rng: &mut Rng, remember: bool) {
                 };
                 let _ = ctx.issue_obs(sim, &req, &meta, remember);
             }
-            // two invalid pairings per coordinate
-            for _ in 0..2 {
+            // one or two invalid pairings per coordinate
+            for _ in 0..rng.range(1, 2) {
                 let frame = *rng.pick(&FRAMES);
                 let p = rng.pick(&projs).clone();
                 if valid_pair(frame, &p) {
@@ -1380,7 +1431,7 @@ fn pass(ctx: &mut Ctx<'_>, sim: &Sim, rng: &mut Rng, remember: bool) {
                     },
                     OpticApertureShape::AttachmentBoundary,
                 ];
-                for _ in 0..2 {
+                for _ in 0..rng.range(1, 2) {
                     let shape = rng.pick(&shapes).clone();
                     let focus = match rng.below(10) {
                         0 => OpticFocus::Worldline {
@@ -1483,6 +1534,7 @@ pub struct CaseResult {
     pub history_digest: u64,
     pub violations: u64,
     pub sample: Value,
+    pub complete: bool,
 }
 
 pub fn run_case(
@@ -1492,6 +1544,7 @@ pub fn run_case(
     quiet: bool,
     verbose: bool,
     self_test: bool,
+    deadline: Option<Budget>,
 ) -> CaseResult {
     let mut rng = Rng::for_case(seed, "C16", case);
     let mut sim = Sim::new(&mut rng);
@@ -1509,6 +1562,8 @@ pub fn run_case(
         content_to_hash: HashMap::new(),
         remembered: Vec::new(),
         violations: 0,
+        deadline,
+        incomplete: false,
     };
 
     for _ in 0..rng.range(1, 4) {
@@ -1531,6 +1586,9 @@ pub fn run_case(
 
     let phases = rng.range(1, 3);
     for _ in 0..phases {
+        if ctx.out_of_time() {
+            break;
+        }
         for _ in 0..rng.range(1, 3) {
             match rng.below(9) {
                 0..=4 => {
@@ -1561,6 +1619,16 @@ pub fn run_case(
     }
 
     ctx.stats.commits = sim.commits;
+    // Non-vacuity of the state-root half: how many commits moved the root.
+    let mut prev: Option<(WorldlineId, Hash)> = None;
+    for ((w, _), rec) in &sim.log {
+        if let Some((pw, pr)) = prev {
+            if pw == *w && pr != rec.live_state_root {
+                ctx.stats.commits_moving_state_root += 1;
+            }
+        }
+        prev = Some((*w, rec.live_state_root));
+    }
     let mut hd = blake3::Hasher::new();
     for ((w, t), rec) in &sim.log {
         hd.update(w.as_bytes());
@@ -1594,6 +1662,7 @@ pub fn run_case(
         history_digest,
         violations: ctx.violations,
         sample,
+        complete: !ctx.incomplete,
     }
 }
 
@@ -1617,10 +1686,81 @@ fn fold_stats(rep: &mut Report, s: &CaseStats) {
     rep.count("strand_children_forked", s.strand_children);
     rep.count("commits", s.commits);
     rep.count("checkpoints", s.checkpoints);
+    rep.count("consecutive_commits_with_different_state_root", s.commits_moving_state_root);
 }
 
 fn nontrivial(s: &CaseStats) -> bool {
-    s.historical_vs_replay >= 1 && s.repeats_after_mutation >= 1 && s.unavailable_typed >= 1
+    s.historical_vs_replay >= 1
+        && s.repeats_after_mutation >= 1
+        && s.unavailable_typed >= 1
+        && s.commits_moving_state_root >= 1
+}
+
+/// Fixed minimal probe: one worldline, one commit, one optic head read at a
+/// full provenance coordinate whose commit hash is not in the history.
+/// Returns the number of divergences.
+pub fn probe_provenance_coordinate(rep: &mut Report, verbose: bool) -> u64 {
+    let mut sim = Sim::minimal();
+    sim.commit_fixed(b"\x01minimal");
+    let w = sim.wls[0].id;
+    let Some(rec) = sim.log.get(&(w, 0)).cloned() else {
+        rep.inconclusive("minimal probe: the single commit did not happen");
+        return 0;
+    };
+    let named = [0xAB_u8; 32];
+    let req = ObserveOpticRequest {
+        optic_id: OpticId::from_bytes([0x70; 32]),
+        focus: OpticFocus::Worldline { worldline_id: w },
+        coordinate: EchoCoordinate::Worldline {
+            worldline_id: w,
+            at: CoordinateAt::Provenance(ProvenanceRef {
+                worldline_id: w,
+                worldline_tick: WorldlineTick::from_raw(0),
+                commit_hash: named,
+            }),
+        },
+        aperture: OpticAperture {
+            shape: OpticApertureShape::Head,
+            budget: OpticReadBudget {
+                max_bytes: Some(1024),
+                max_nodes: Some(8),
+                max_ticks: Some(8),
+                max_attachments: Some(0),
+            },
+            attachment_descent: AttachmentDescentPolicy::BoundaryOnly,
+        },
+        projection_version: ProjectionVersion::from_raw(1),
+        reducer_version: None,
+        capability: OpticCapabilityId::from_bytes([0x71; 32]),
+    };
+    rep.count("minimal_probes", 1);
+    match ObservationService::observe_optic(&sim.runtime, &sim.provenance, &sim.engine, req) {
+        ObserveOpticResult::Obstructed(o) => {
+            if verbose {
+                println!("REPLAY minimal probe: obstructed ({:?}) - no divergence", o.kind);
+            }
+            0
+        }
+        ObserveOpticResult::Reading(rd) => {
+            let what = format!(
+                "minimal: worldline with ONE commit {} at tick 0; observe_optic(Head) at CoordinateAt::Provenance{{tick 0, commit_hash abab..}} returned a reading {:?} whose read identity names the abab.. coordinate",
+                hx(&rec.commit_hash),
+                match &rd.payload {
+                    ObservationPayload::Head(h) => hx(&h.commit_hash),
+                    _ => String::new(),
+                }
+            );
+            if verbose {
+                println!("REPLAY divergence [minimal]: {what}");
+            }
+            rep.violation(
+                "C16:observe-optic:provenance-coordinate:commit-hash-not-in-history-answered-with-reading",
+                &what,
+                json!({"minimal": "provenance-coordinate", "seed": 0, "case": -1}),
+            );
+            1
+        }
+    }
 }
 
 pub fn run(args: &Args) -> i32 {
@@ -1634,6 +1774,7 @@ pub fn run(args: &Args) -> i32 {
         return replay(args, path, rep);
     }
 
+    probe_provenance_coordinate(&mut rep, false);
     let budget = Budget::for_tier(args.tier, 45.0, 600.0);
     let max_cases = args.by_tier(4_000u64, 200_000u64);
     let n_shards = args.jobs.max(1) * 2;
@@ -1643,9 +1784,12 @@ pub fn run(args: &Args) -> i32 {
         let mut first = true;
         while !budget.expired() && case < max_cases {
             rep.eval();
-            let res = run_case(rep, seed, case, false, false, first);
+            let res = run_case(rep, seed, case, false, false, first, Some(budget));
             first = false;
             fold_stats(rep, &res.stats);
+            if !res.complete {
+                rep.count("cases_cut_short_by_budget", 1);
+            }
             if nontrivial(&res.stats) {
                 rep.nontrivial_hash(res.history_digest);
             }
@@ -1655,10 +1799,12 @@ pub fn run(args: &Args) -> i32 {
             // Whole-case determinism: every 4th case is executed a second time
             // from scratch; transcripts (artifact hashes / error digests in
             // issue order) must be identical.
-            if case % 4 == 0 && !budget.expired() {
-                let again = run_case(rep, seed, case, true, false, false);
-                rep.count("whole_case_reexecutions", 1);
-                if again.transcript != res.transcript {
+            if (case ^ (case >> 5)) % 4 == 0 && res.complete && !budget.expired() {
+                let again = run_case(rep, seed, case, true, false, false, Some(budget));
+                if again.complete && res.complete {
+                    rep.count("whole_case_reexecutions", 1);
+                }
+                if again.complete && res.complete && again.transcript != res.transcript {
                     let at = again
                         .transcript
                         .iter()
@@ -1703,6 +1849,10 @@ fn replay(args: &Args, path: &std::path::Path, mut rep: Report) -> i32 {
         }
     };
     let r = &v["replay"];
+    if r["minimal"].as_str() == Some("provenance-coordinate") {
+        let n = probe_provenance_coordinate(&mut rep, true);
+        return i32::from(n > 0 && !rep.is_known(v["signature"].as_str().unwrap_or("")));
+    }
     let seed = r["seed"].as_i64().map_or(args.seed, |s| s as u64);
     let Some(case) = r["case"].as_i64() else {
         println!("HARNESS-ERROR replay file has no case index");
@@ -1717,8 +1867,8 @@ fn replay(args: &Args, path: &std::path::Path, mut rep: Report) -> i32 {
         println!("REPLAY wasm lane case {case}: {n} divergence(s)");
         return i32::from(n > 0);
     }
-    let res = run_case(&mut rep, seed, case as u64, false, true, false);
-    let again = run_case(&mut rep, seed, case as u64, true, false, false);
+    let res = run_case(&mut rep, seed, case as u64, true, true, false, None);
+    let again = run_case(&mut rep, seed, case as u64, true, false, false, None);
     if again.transcript != res.transcript {
         println!("REPLAY divergence [whole-case determinism]: transcripts differ");
     }
